@@ -6,7 +6,7 @@ symmetries and triangular-vs-full summation.  Nothing is executed and no concret
 """
 import sympy as sp
 
-from ..vals import Vals, callee_is, norm_path, bool_edges
+from ..vals import Vals, callee_is, norm_path, bool_edges, Root
 from ..roles import RoleLost
 from .. import pat
 from ..kern.expr import Expr, fresh, equal_modulo_order, sym
@@ -58,7 +58,8 @@ class SampleWorld:
         roles = {"quantile": R.quantile(), "decompose": R.decompose(), "reader_ctor": R.reader_adt()["ctor"], "read": R.read_fn()}
         # by result-field provenance
         aggs = list(pat.aggregates(s, "TropicalSampleResult"))
-        mds = list(pat.aggregates(s, "Metadata"))
+        from .common import built_structs
+        mds = list(built_structs(self.f, R, s, "Metadata"))
         if len(aggs) != 1 or len(mds) != 1:
             raise RoleLost("TropicalSampleResult / Metadata aggregates in sample")
 
@@ -431,6 +432,9 @@ def run_c09(ctx):
         from .common import signature_wiring
         signature_wiring(ctx, ctx.roles, "C09-c")
     guarded_clause(ctx, "C09-c", w.roles["lmatrix"].path, "l-matrix", c)
+    # the Vector primitives the u vectors and V are written in (restated from C20-b: the formulas above use them by definition)
+    ctx.rule("C09-e", "the Vector primitives used by the u vectors and V are componentwise: a+b, a·s, dot = Σ_i a_i·b_i, squared = Σ_i a_i²")
+    run_c20b(ctx, "C09-e", only=("add", "mul-by-value", "mul-by-ref", "dot"))
     # d: the `inverse` that enters V is the inverse of that matrix (Cholesky recurrence, nilpotent series, assembly, product wiring)
     run_c15e(ctx, "C09-d")
     matrix_wiring_clause(ctx, "C09-d", "L⁻¹ in V")
@@ -1109,6 +1113,34 @@ def run_c13(ctx):
         want = Expr.atom(("call", "idiv", n + Expr.atom(("call", "mod", n, Expr.const(2))), Expr.const(2)))
         compare(ctx, "C13-d", "pair count == (D·L + (D·L mod 2)) div 2", e, want, gauss.path, "pair-count", {}, ())
     guarded_clause(ctx, "C13-d", gauss.path, "pair-count", d)
+    ctx.rule("C13-e", "the pairs are the TAIL of a get_dimension()-long point and the reported vectors are the routine's: 2·pairs equals the Gaussian "
+                      "term of get_dimension (restated from C14-g), the Gaussian routine is the last reader in sample, Metadata.q_vectors is its result")
+
+    def e_():
+        pairs = gaussian_pair_count(ctx, gauss)
+        dimfn, dim = dimension_formula(ctx)
+        n = Expr.symbol("D") * Expr.symbol("L")
+        gterm = n + Expr.atom(("call", "mod", n, Expr.const(2)))
+        compare(ctx, "C13-e", "get_dimension == 2E − 1 + D·L + (D·L mod 2)", dim, Expr.const(2) * Expr.symbol("E") - Expr.const(1) + gterm, dimfn.path,
+                "dimension-formula", {}, ())
+        compare(ctx, "C13-e", "pairs == (Gaussian term of get_dimension) div 2", pairs, Expr.atom(("call", "idiv", gterm, Expr.const(2))), gauss.path,
+                "gaussian-count-sibling", {}, ())
+        s_ = R.sample()
+        sv = Vals(s_)
+        from .common import built_structs
+        gsites = [(bi, t) for bi, t, cb in R.local_callees(s_) if cb is gauss]
+        sidom = cfg.dominators(s_)
+        later = [pat.where(t) for bi, t, cb in R.local_callees(s_) if cb is not gauss and gsites and cfg.dominates(sidom, gsites[0][0], bi)
+                 and any(rd_ in (cb.local_ty(i + 1)) for i in range(cb.arg_count) for rd_ in [R.reader_adt()["adt"]])]
+        ctx.ob("C13-e", "the Gaussian routine is called once and no reader call follows it", len(gsites) == 1 and not later, s_.path, "gauss-is-last-reader",
+               detail="calls %d, later reader calls %s" % (len(gsites), later))
+        for bj, sj, st in built_structs(f, R, s_, "Metadata"):
+            rv = st["rv"]
+            if "q_vectors" in rv["fields"] and gsites:
+                r_ = sv.root(rv["ops"][rv["fields"].index("q_vectors")])
+                ctx.ob("C13-e", "Metadata.q_vectors is the Gaussian routine's result", r_ == Root(("call", gsites[0][0])), s_.path, "metadata-q-vectors",
+                       where=pat.where(st), detail="Metadata.q_vectors has provenance %r, the Gaussian routine is called at bb%d" % (r_, gsites[0][0]))
+    guarded_clause(ctx, "C13-e", gauss.path, "tail-and-report", e_)
 
 
 def dimension_formula(ctx):
@@ -1281,15 +1313,24 @@ def run_c14i(ctx):
                 raise Undecided("iteration body (%s case): %s" % (label, tr and tr["error"]))
             gv = tr["post"].get(gname)
             want = "pop(%s,«%s»)" % (gname, member)
+            if case and tr["always_breaks"]:
+                # the single-edge iteration leaves the loop unconditionally: it is the last one whatever it does to the graph
+                ctx.ob(RID, "[single-edge] the iteration leaves the loop unconditionally, without reading a coordinate", tr["reads"] == 0, fn,
+                       "single-edge-reads", detail="reads in the last iteration: %s" % tr["reads"])
+                continue
             ctx.ob(RID, "[%s] the graph loses exactly one of its own edges: graph := graph∖%s" % (label, member), isinstance(gv, world.GraphIdVal) and gv.key_ == want,
                    fn, "rank-decreases:" + label, detail="graph becomes %s, expected %s (an edge that is not a member would toggle a bit ON: the count would not drop)"
                    % (getattr(gv, "key_", gv), want))
             ctx.ob(RID, "[%s] the only way out of an iteration is the emptiness test of the new graph" % label,
-                   tr["breaks"] == ["empty(%s)" % want] and not tr["always_breaks"], fn, "exit-only-when-empty:" + label, detail="break conditions %s" % tr["breaks"])
+                   tr["breaks"] in (["empty(%s)" % want], []) and not tr["always_breaks"], fn, "exit-only-when-empty:" + label,
+                   detail="break conditions %s" % tr["breaks"])
             if case:
                 # one edge left: graph∖e is empty, the break is taken; reads before it must be zero
                 rb = tr["reads_at_break"]
-                ctx.ob(RID, "[single-edge] no coordinate is read before the loop is left", rb == [0], fn, "single-edge-reads", detail="reads before the break: %s" % rb)
+                # without an explicit break the loop condition ends the loop before the next iteration: the whole iteration must be read-free
+                ok_rb = rb == [0] if rb else tr["reads"] == 0
+                ctx.ob(RID, "[single-edge] no coordinate is read before the loop is left", ok_rb, fn, "single-edge-reads",
+                       detail="reads before the break: %s; reads in the iteration: %s" % (rb, tr["reads"]))
             else:
                 # >= 2 edges: graph∖e is non-empty, the iteration runs to its end
                 ctx.ob(RID, "[multi-edge] exactly two coordinates are read per iteration (edge choice, ξ)", tr["reads"] == reads, fn, "multi-edge-reads",
@@ -1317,6 +1358,8 @@ def run_c14g(ctx):
         compare(ctx, "C14-g", "pairs of the Gaussian routine == (Gaussian term of get_dimension) div 2 (two reads per pair; the term is even)", pairs,
                 Expr.atom(("call", "idiv", gterm, Expr.const(2))), gauss.path, "gaussian-count-sibling", {}, ())
     guarded_clause(ctx, "C14-g", gauss.path, "gaussian-count", g)
+    # the L of both formulas is the graph's loop number (restated from C03-a)
+    guarded_clause(ctx, "C14-g", "preprocessing::TropicalGraph::from_graph", "graph-dod", lambda: graph_dod_clause(ctx, "C14-g"))
 
 
 # ---------------------------------------------------------------------------------------------------
@@ -1696,6 +1739,35 @@ def run_c03(ctx):
     run_c03_tail(ctx, f)
 
 
+def graph_dod_clause(ctx, RID):
+    """dod and L of the whole graph as from_graph computes them (restated where a property's formula consumes them)."""
+    f = ctx.facts
+    bs, fg, tb, jrec = builder_roles(ctx)
+    seen = {}
+    hooks = graph_hooks(ctx, seen)
+    ctx.fn(fg.path)
+    I = Interp(f, models=dict(hooks))
+    res = I.run_fn(fg.path, [graph_param(), Num(Expr.symbol("D"), size="D")])
+    if not isinstance(res, Struct):
+        raise Undecided("from_graph result")
+    e = fresh("e")
+    want = ssum(leaf("w", e), e, "E") - Expr.symbol("L") * Expr.symbol("D") * Expr.const(sp.Rational(1, 2))
+    compare(ctx, RID, "dod == Σ_e w_e − L·D/2", scalar_of(res.fields["dod"], "dod"), want, fg.path, "dod-formula", {}, ())
+    ctx.ob(RID, "num_loops is the loop-number routine's value on all edges (sum over connected components)",
+           scalar_of(res.fields["num_loops"], "num_loops") == Expr.symbol("L") and seen.get("loops", [None])[0] == "E", fg.path, "num-loops")
+
+
+def normalisation_clause(ctx, RID):
+    """cached_factor = J(full)·Γ(dod)/Π_e Γ(w_e)·π^(D·L/2) (restated from C04-b where the jacobian consumes it)."""
+    bs, fg, tb, jrec = builder_roles(ctx)
+    tw = table_world(ctx)
+    got = scalar_of(tw.result.fields["cached_factor"], "cached_factor")
+    e = fresh("e")
+    want = (Expr.atom(("call", "J", ("ix", "last"))) * Expr.symbol("dod").fn("gamma") * Expr.atom(("prod", e, "E", leaf("w", e).fn("gamma"))).inv()
+            * Expr.atom(("sym", "pi")).powf(D * L / 2))
+    compare(ctx, RID, "normalisation == J(last)·Γ(dod)·(Π_e Γ(w_e))⁻¹·π^(D·L/2)", got, want, tb.path, "cached-factor", {}, ())
+
+
 def gdod_clause(ctx, RID, tb):
     if True:
         tw = table_world(ctx)
@@ -2056,13 +2128,16 @@ def run_c04(ctx):
         ctx.ob("C04-b", "the stored table has 2^E entries, so `last` is the entry of the full id (1<<E)−1", isinstance(tbl, Arr) and tbl.classes == (size,),
                tb.path, "last-is-full", detail="table length class %s, expected %s" % (getattr(tbl, "classes", None), size))
     guarded_clause(ctx, "C04-b", tb.path, "cached-factor", b)
+    ctx.rule("C04-c", "the dod and L that enter the normalisation are the graph's: dod = Σ_e w_e − L·D/2, L = loop number of all edges (restated from C03-a)")
+    guarded_clause(ctx, "C04-c", fg.path, "graph-dod", lambda: graph_dod_clause(ctx, "C04-c"))
 
 
 # ---------------------------------------------------------------------------------------------------
 # C20-b: Vector primitives
 
-def run_c20b(ctx):
-    ctx.rule("C20-b", "Vector ops are componentwise with equal indices: (a±b)_i = a_i ± b_i, (a·s)_i = a_i·s, += updates every i < D, dot = 0 + Σ_i a_i·b_i "
+def run_c20b(ctx, RID="C20-b", only=None):
+    if only is None:
+        ctx.rule(RID, "Vector ops are componentwise with equal indices: (a±b)_i = a_i ± b_i, (a·s)_i = a_i·s, += updates every i < D, dot = 0 + Σ_i a_i·b_i "
                       "accumulated from index 0 upwards, squared(v) = dot(v,v), constructors / get_elements are element-wise identity")
     f = ctx.facts
 
@@ -2090,7 +2165,9 @@ def run_c20b(ctx):
     S_ = Num(Expr.symbol("s"))
 
     def one(desc, construct, thunk):
-        guarded_clause(ctx, "C20-b", "vector::Vector", construct, thunk)
+        if only is not None and construct not in only:
+            return
+        guarded_clause(ctx, RID, "vector::Vector", construct, thunk)
 
     def binop(name, trait, rhs_val, rhs_ty, want_fn, label):
         def t():
@@ -2098,7 +2175,7 @@ def run_c20b(ctx):
             ctx.fn(b.path)
             I = Interp(f)
             res = I.run_fn(b.path, [A, rhs_val])
-            compare(ctx, "C20-b", "%s: component i" % label, comp(res, "i"), want_fn("i"), b.path, "vector-" + label, {"i": "D"}, ())
+            compare(ctx, RID, "%s: component i" % label, comp(res, "i"), want_fn("i"), b.path, "vector-" + label, {"i": "D"}, ())
         one(label, label, t)
 
     binop("add", "arith::Add", B, None, lambda i: leaf("a", i) + leaf("b", i), "add")
@@ -2112,11 +2189,11 @@ def run_c20b(ctx):
         I = Interp(f)
         res = I.run_fn(b.path, [A, B])
         i = fresh("i")
-        compare(ctx, "C20-b", "dot(a,b) == 0 + Σ_i a_i·b_i", scalar_of(res, "dot"), ssum(leaf("a", i) * leaf("b", i), i, "D"), b.path, "vector-dot", {}, ())
+        compare(ctx, RID, "dot(a,b) == 0 + Σ_i a_i·b_i", scalar_of(res, "dot"), ssum(leaf("a", i) * leaf("b", i), i, "D"), b.path, "vector-dot", {}, ())
         b2 = vec_fn("squared")
         ctx.fn(b2.path)
         res2 = I.run_fn(b2.path, [A])
-        compare(ctx, "C20-b", "squared(a) == Σ_i a_i·a_i (= dot(a,a))", scalar_of(res2, "squared"), ssum(leaf("a", i) * leaf("a", i), i, "D"), b2.path,
+        compare(ctx, RID, "squared(a) == Σ_i a_i·a_i (= dot(a,a))", scalar_of(res2, "squared"), ssum(leaf("a", i) * leaf("a", i), i, "D"), b2.path,
                 "vector-squared", {}, ())
         # forward accumulation from index 0: no reversing / reordering adapter in the two pipelines
         for bb in (b, b2):
@@ -2133,7 +2210,7 @@ def run_c20b(ctx):
                         walk(v_)
             walk(f.thir[bb.path]["body"])
             bad = [n for n in names if n in ("rev", "rfold", "next_back", "rposition", "sorted", "chunks", "step_by", "tree_fold1", "tree_reduce")]
-            ctx.ob("C20-b", "%s accumulates in ascending index order (pipeline %s)" % (norm_path(bb.path), [n for n in names if n]), not bad and "fold" in names,
+            ctx.ob(RID, "%s accumulates in ascending index order (pipeline %s)" % (norm_path(bb.path), [n for n in names if n]), not bad and "fold" in names,
                    bb.path, "forward-accumulation", detail="adapters %s" % bad)
     one("dot", "dot", dot)
 
@@ -2146,7 +2223,7 @@ def run_c20b(ctx):
         env.define("V", A)
         I.run_fn(b.path, [PlaceRef("V", []), B], env)
         res = env.get("V")
-        compare(ctx, "C20-b", "a += b updates every component i < D", comp(res, "i"), leaf("a", "i") + leaf("b", "i"), b.path, "vector-add-assign", {"i": "D"}, ())
+        compare(ctx, RID, "a += b updates every component i < D", comp(res, "i"), leaf("a", "i") + leaf("b", "i"), b.path, "vector-add-assign", {"i": "D"}, ())
     one("add_assign", "add-assign", add_assign)
 
     def ctors():
@@ -2156,15 +2233,50 @@ def run_c20b(ctx):
             ctx.fn(b.path)
             I = Interp(f)
             res = I.run_fn(b.path, [arg])
-            ctx.ob("C20-b", "%s keeps every element in place" % name, comp(res, "i") == leaf("a", "i"), b.path, "vector-ctor:" + name)
+            ctx.ob(RID, "%s keeps every element in place" % name, comp(res, "i") == leaf("a", "i"), b.path, "vector-ctor:" + name)
         b = vec_fn("get_elements")
         I = Interp(f)
         res = I.run_fn(b.path, [A])
         ok = isinstance(res, Arr) and scalar_of(res.at("i"), "element") == leaf("a", "i")
-        ctx.ob("C20-b", "get_elements returns the elements in place", ok, b.path, "vector-get-elements")
+        ctx.ob(RID, "get_elements returns the elements in place", ok, b.path, "vector-get-elements")
         for name in ("new", "new_from_num"):
             b = vec_fn(name)
             I = Interp(f)
             res = I.run_fn(b.path, [A if name == "new" else Num(Expr.symbol("s"))])
-            ctx.ob("C20-b", "%s is the zero vector" % name, comp(res, "i") == Expr.zero(), b.path, "vector-zero:" + name)
+            ctx.ob(RID, "%s is the zero vector" % name, comp(res, "i") == Expr.zero(), b.path, "vector-zero:" + name)
     one("ctors", "ctors", ctors)
+
+    # IEEE results follow from the arithmetic alone only if no operand VALUE is special-cased (signed zeros, NaN, infinities)
+    def branch_free():
+        bodies = []
+        for b in f.mir.values():
+            fi = f.fns.get(b.path) or {}
+            root = b.j.get("root")
+            owner = f.fns.get(root) if root else fi
+            if owner and "vector::Vector" in (owner.get("impl_self") or "") and (owner.get("name") in ("add", "sub", "mul", "add_assign", "dot", "squared",
+                                                                                                      "from_array", "from_vec", "from_slice", "get_elements", "new", "new_from_num")):
+                bodies.append(b)
+        bad = []
+        for b in bodies:
+            vb = Vals(b)
+            for bi, blk in enumerate(b.blocks):
+                t = blk["term"]
+                if blk["cleanup"] or t["k"] != "switch":
+                    continue
+                c = vb.classify_bool(t["discr"])
+                if not c:
+                    continue
+                if c[0] == "call" and (c[1].get("callee") or {}).get("name") in ("eq", "ne", "lt", "le", "gt", "ge") \
+                        and ((c[1]["callee"].get("trait") or "").endswith(("PartialEq", "PartialOrd"))):
+                    st_ = c[1]["callee"].get("self_ty") or ""
+                    if st_ not in ("usize", "isize", "u8", "u32", "u64", "i32", "i64", "bool"):
+                        bad.append("%s at %s" % (norm_path(b.path), pat.where(t)))
+                elif c[0] == "binop" and c[1]["op"] in ("Eq", "Ne", "Lt", "Le", "Gt", "Ge"):
+                    a_ = c[1]["a"]
+                    ty_ = b.local_ty(a_["place"]["l"]) if a_["k"] in ("copy", "move") and not a_["place"]["p"] else a_.get("ty", "")
+                    if ty_ in ("f64", "f32"):
+                        bad.append("%s at %s" % (norm_path(b.path), pat.where(t)))
+        ctx.ob(RID, "no Vector operation branches on a component / scalar VALUE (%d bodies)" % len(bodies), not bad and len(bodies) >= 10, "vector::Vector",
+               "value-dependent-branch", detail="a value comparison decides the result in %s: for that value (e.g. ±0, NaN) the result is not the componentwise IEEE "
+                                                "result (sign of zero, NaN propagation)" % bad)
+    one("branch-free", "branch-free", branch_free)
